@@ -55,6 +55,8 @@ type c31Case struct {
 	MaxRetries   int        `json:"max_retries"`
 	DecodedSize  int        `json:"decoded_size"`
 	Zstd         bool       `json:"zstd"`
+	ZFrames      int        `json:"zframes,omitempty"` // zstd body made of this many concatenated frames (0/1 = one frame)
+	ZSkippable   bool       `json:"zskippable,omitempty"` // a skippable frame precedes the data frames
 	Chunked      bool       `json:"chunked"`
 	FetchDelta   int64      `json:"fetch_delta"`  // MaxFetchBytes = len(encoded body) + delta
 	DecompDelta  int64      `json:"decomp_delta"` // MaxDecompressedBytes = len(decoded body) + delta
@@ -134,6 +136,10 @@ func genC31(t *rapid.T) c31Case {
 	c.DecodedSize = rapid.IntRange(600, 3000).Draw(t, "size")
 	c.Zstd = rapid.Bool().Draw(t, "zstd")
 	c.Chunked = rapid.Bool().Draw(t, "chunked")
+	if c.Zstd {
+		c.ZFrames = []int{1, 1, 2, 2, 3, 6}[rapid.IntRange(0, 5).Draw(t, "zframes")]
+		c.ZSkippable = rapid.IntRange(0, 3).Draw(t, "zskippable") == 0
+	}
 	delta := func(label string) int64 {
 		switch rapid.IntRange(0, 3).Draw(t, label+"kind") {
 		case 0, 1:
@@ -356,12 +362,33 @@ func c31Payload(size int) []byte {
 	return out
 }
 
+// c31Zstd compresses raw as `frames` concatenated zstd frames (RFC 8878 §3:
+// a zstd stream is any number of frames back to back, and decoders inflate
+// them all), optionally led by a skippable frame.
+func c31Zstd(raw []byte, frames int, skippable bool) []byte {
+	var out []byte
+	if skippable {
+		out = append(out, 0x50, 0x2a, 0x4d, 0x18, 4, 0, 0, 0, 'v', 'r', 'f', 'y')
+	}
+	if frames < 1 {
+		frames = 1
+	}
+	for i := 0; i < frames; i++ {
+		lo, hi := len(raw)*i/frames, len(raw)*(i+1)/frames
+		out = append(out, zstdCompress(raw[lo:hi])...)
+	}
+	return out
+}
+
 func runC31(c c31Case) (out lib.Outcome) {
 	o := theC31Origin()
 	raw := c31Payload(c.DecodedSize)
 	st := &c31State{c: c, body: raw}
 	if c.Zstd {
-		st.body, st.enc = zstdCompress(raw), "zstd"
+		st.body, st.enc = c31Zstd(raw, c.ZFrames, c.ZSkippable), "zstd"
+		if c.ZFrames >= 2 {
+			out.Label("zstd-multi-frame")
+		}
 	}
 	o.mu.Lock()
 	o.cur = st
@@ -555,12 +582,12 @@ var propC31 = lib.Prop[c31Case]{
 	ID:    "C31",
 	Level: "fault_enumeration",
 	Rule: "fault scripts against a fake origin: redirect chains of 0-8 redirects (301/302/303/307/308, absolute and relative Locations) over 8 host spellings and paths, every URL with its own query secret / userinfo / fragment; " +
-		"validator rejecting host sets, a path fragment or exactly one hop of the chain, answering with or without the URL in its error; MaxRedirects 0-6, MaxRetries -1..5; body 600-3000 bytes (identity or zstd, Content-Length or chunked) with MaxFetchBytes / MaxDecompressedBytes within 3 bytes, within 400 bytes or far from the body; " +
+		"validator rejecting host sets, a path fragment or exactly one hop of the chain, answering with or without the URL in its error; MaxRedirects 0-6, MaxRetries -1..5; body 600-3000 bytes (identity or zstd in 1-6 concatenated frames with or without a leading skippable frame, Content-Length or chunked) with MaxFetchBytes / MaxDecompressedBytes within 3 bytes, within 400 bytes or far from the body; " +
 		"per-attempt fault at any hop (500/503/404/connection reset/body cut short). Non-trivial: chain of >=2 hops with a rejected hop, or >=1 retry observed.",
 	Gen: genC31,
 	Run: runC31,
 	Essential: []string{"outcome:ok", "outcome:error", "first-url-rejected", "redirect-target-rejected", "chain-longer-than-max-redirects",
-		"retried", "body-over-fetch-cap", "body-over-decompression-cap", "body-within-3-of-fetch-cap", "body-within-3-of-decompression-cap"},
+		"retried", "body-over-fetch-cap", "body-over-decompression-cap", "body-within-3-of-fetch-cap", "body-within-3-of-decompression-cap", "zstd-multi-frame"},
 	EssentialMin: 300,
 	Assumptions: []string{
 		"MaxRetries<=0 and MaxRedirects<=0 select the documented defaults (2 retries, 5 redirects)",
